@@ -391,6 +391,12 @@ var c04Contexts = []func(e gen.Expr) gen.Expr{
 	func(e gen.Expr) gen.Expr {
 		return &gen.EAttr{X: &gen.EGroup{X: &gen.EHash{Keys: []gen.Expr{&gen.EGroup{X: e}}, Vals: []gen.Expr{&gen.ENum{Text: "1"}}}}, Key: &gen.EStr{S: "k"}, Dot: true}
 	}, // ({(E): 1}).k
+	func(e gen.Expr) gen.Expr {
+		if _, bare := e.(*gen.EName); bare {
+			e = &gen.EGroup{X: e} // (a bare name as a key is the string of that name)
+		}
+		return &gen.EAttr{X: &gen.EGroup{X: &gen.EHash{Keys: []gen.Expr{&gen.EStr{S: "a"}, e}, Vals: []gen.Expr{&gen.ENum{Text: "0"}, &gen.ENum{Text: "1"}}}}, Key: &gen.EStr{S: "k"}, Dot: true}
+	}, // ({'a': 0, E: 1}).k - a computed key needs no parentheses here: the key is a whole expression, it ends at the colon
 }
 
 func (c *c04chain) inContext(e gen.Expr, reference bool) gen.Expr {
